@@ -37,8 +37,12 @@ def d7_unreachable(F, hs):
     some_set = set()
     if len(sws) == 1:
         arms, adt, pl, other, allv = K.arm_map(gt, sws[0])
+        vsw = flow.switch_on_variant(gt, sws[0])
         for v, blocks in arms.items():
-            kinds = {rv["variant"] for i, j, p2, rv, s in K.aggregates(gt, "core::option::Option", blocks)}
+            # everything the arm can reach (arms written as one or-pattern share the block that builds the value)
+            tgt = vsw[2].get(v, vsw[3]) if vsw else None
+            reach = flow.reach_avoiding(gt, [tgt], [sws[0]]) if tgt is not None else blocks
+            kinds = {rv["variant"] for i, j, p2, rv, s in K.aggregates(gt, "core::option::Option", reach)}
             if kinds == {"Some"}:
                 some_set.add(v)
     gtc = hs.calls_to("selium_protocol::frame::Frame::get_topic")
@@ -243,6 +247,7 @@ def d2(ctx, F):
 
 
 def d3(ctx, F):
+    K.socket_pass_through(ctx, F, "C11.D1")
     # "explicitly refused with an error frame": the refusal in handle_stream must be reachable — nothing in front of it (serde hooks on
     # TopicName, the frame decoder) may reject a violating name first, which would end the stream without an answer
     from . import c05
@@ -443,5 +448,5 @@ def run(ctx):
     c17.d2(ctx, F)
     from . import routers
     for which in ("pubsub", "reqrep"):
-        routers.report(ctx, F, which, "C11", lambda f: f.kind in ("K1", "K2", "K9", "K10", "K11", "K13"))
+        routers.report(ctx, F, which, "C11", lambda f: f.kind in ("K1", "K2", "K5", "K9", "K10", "K11", "K13"))
         ctx.ok("C11.pollai", "%s router explored for abandoned peers / poisoned slots" % which)
